@@ -158,6 +158,23 @@ func vecIndexInfo(sv models.IndexSchemaValue) (int, string, *models.Quantizer) {
 type pqTracker struct {
 	trained bool
 	prev    map[uuid.UUID][]float32
+	// training trigger: couldTrain latches once the number of stored vectors (plus the
+	// entry node of a graph index, which the vector store counts too) has reached the
+	// trigger threshold after some write; mustTrain once the vectors alone have
+	couldTrain, mustTrain bool
+}
+
+// quantTrigger returns the trigger threshold of a learned quantiser (0 = none).
+func quantTrigger(q *models.Quantizer) int {
+	switch {
+	case q == nil:
+		return 0
+	case q.Type == models.QuantizerBinary && q.Binary != nil && q.Binary.Threshold == nil:
+		return q.Binary.TriggerThreshold
+	case q.Type == models.QuantizerProduct && q.Product != nil:
+		return q.Product.TriggerThreshold
+	}
+	return 0
 }
 
 func (t *pqTracker) step(m *RefShard, prop string, dim int, vm VecMode) map[uuid.UUID]bool {
@@ -188,6 +205,37 @@ func vecModeAt(env *Env, m *RefShard, schema models.IndexSchema, prop string, du
 	dim, metric, quant := vecIndexInfo(schema[prop])
 	vm := vectorModeDump(dim, metric, quant, dump, indexBucketName(schema, prop))
 	fresh := tr.step(m, prop, dim, vm)
+	// the quantiser is trained by the first write that leaves triggerThreshold vectors in
+	// the index, not before and not later (called after every operation of the history)
+	if T := quantTrigger(quant); T > 0 && metric != models.DistanceHamming && metric != models.DistanceJaccard {
+		nvec := 0
+		for _, d := range detRange(m.Docs) {
+			if _, ok := docVector(d, prop, dim); ok {
+				nvec++
+			}
+		}
+		slack := 0
+		if schema[prop].Type == models.IndexTypeVectorVamana {
+			slack = 1
+		}
+		if nvec+slack >= T {
+			tr.couldTrain = true
+		}
+		if nvec >= T {
+			tr.mustTrain = true
+		}
+		b := dump[indexBucketName(schema, prop)]
+		_, t1 := b["_binaryQuantizerThreshold"]
+		_, t2 := b["_productQuantizerFlatCentroids"]
+		switch trained := t1 || t2; {
+		case trained && !tr.couldTrain:
+			env.Violate("wrong-answer", "quantiser-trained-early", "after op %d: the quantiser of %q is trained although only %d vectors are stored (triggerThreshold %d)", i, prop, nvec, T)
+			return vm, false
+		case !trained && tr.mustTrain:
+			env.Violate("wrong-answer", "quantiser-not-trained", "after op %d: %d vectors have been stored (triggerThreshold %d) but the quantiser of %q is not trained", i, nvec, T, prop)
+			return vm, false
+		}
+	}
 	if vm.PQ != nil {
 		env.Stat("mode-product", 1)
 		env.Stat("pq-fresh-codes", len(fresh))
@@ -232,7 +280,7 @@ func (c04) Execute(env *Env) {
 			if !applyOp(env, w, model, i, op) {
 				return
 			}
-			isPQ := quant != nil && quant.Type == models.QuantizerProduct
+			isPQ := quantTrigger(quant) > 0 // bookkeeping of the training trigger needs every operation
 			if len(p.Queries[i]) == 0 && !isPQ {
 				continue
 			}
